@@ -733,14 +733,24 @@ qb_vsnprintf_deserialize(char *string, size_t str_len, const char *buf)
 	for (;;) {
 		type_long = QB_FALSE;
 		type_longlong = QB_FALSE;
+		/* stay inside the caller's buffer and keep it terminated
+		 * (snprintf reports the length it would have written) */
+		if (location >= str_len) {
+			location = str_len - 1;
+		}
+		string[location] = '\0';
 		p = strchrnul((const char *)format, '%');
 		if (*p == '\0') {
 			return my_strlcat(string, format, str_len) + 1;
 		}
 		/* copy from current to the next % */
 		len = p - format;
+		if (location + len >= str_len) {
+			len = str_len - location - 1;
+		}
 		memcpy(&string[location], format, len);
 		location += len;
+		string[location] = '\0';
 		format = p;
 
 		/* start building up the format for snprintf */
@@ -924,7 +934,9 @@ reprocess:
 			break;
 			}
 		case '%':
-			string[location++] = '%';
+			if (location < str_len - 1) {
+				string[location++] = '%';
+			}
 			format++;
 			break;
 
